@@ -21,7 +21,11 @@ FILES = {
     'openstr.conf': 's = "never closed\n',
     'opencomment.conf': 'i = 4 /* never closed\n',
     'opensq.conf': "s = 'never closed\n",
+    'incbad.conf': 'i = 6\ninclude("n1.conf")\n',
 }
+# a chain that uses every include level there is: any level left occupied by an earlier parse makes it fail
+for _k in range(1, 11):
+    FILES['c%d.conf' % _k] = ('l += {%d}\n' % _k) + ('include("c%d.conf")\n' % (_k + 1) if _k < 10 else 's = "bottom"\n')
 
 # history events: name -> script lines (context 0 exists; context 1 is created on demand by 'second')
 EVENTS = {
@@ -45,6 +49,9 @@ EVENTS = {
     'file-open-comment': ['parse_file 0 %s' % hx('opencomment.conf')],
     'fp-open-sq': ['parse_fp 0 %s' % hx("s = 'abc")],
     'eof-in-list': ['parse_buf 0 %s' % hx('l = {1, 2')],
+    'fp-fail-in-include-1': ['parse_fp 0 %s' % hx('include("bad.conf")\ni = 12\n')],
+    'fp-fail-in-include-3': ['parse_fp 0 %s' % hx('i = 1\ninclude("n1.conf")\n')],
+    'file-fail-in-include-3': ['parse_file 0 %s' % hx('incbad.conf')],
     'eof-in-call': ['parse_buf 0 %s' % hx('include("good.conf"')],
     'bare-open-dq': ['parse_buf 0 %s' % hx('s = "')],
     'bare-open-sq': ['parse_buf 0 %s' % hx("s = '")],
@@ -52,7 +59,7 @@ EVENTS = {
     'eof-in-call-args': ['parse_buf 0 %s' % hx('include("good.conf", "x"')],
 }
 QUICK_EVENTS = ['bare-open-dq', 'bare-open-comment', 'eof-in-call-args', 'ok', 'open-dq', 'open-sq', 'open-comment', 'bad-escape', 'fail-in-include-1', 'fail-in-include-3', 'self-include', 'int-range',
-                'float-range', 'missing-include', 'reinit', 'second', 'eof-in-section', 'file-open-dq', 'eof-in-list']
+                'float-range', 'missing-include', 'reinit', 'second', 'eof-in-section', 'file-open-dq', 'eof-in-list', 'fp-fail-in-include-1', 'fp-fail-in-include-3', 'file-fail-in-include-3']
 
 PROBES = [
     'i = 5\n',
@@ -66,9 +73,10 @@ PROBES = [
     "s = 'single \\' quoted'\n",
     'i = 1\n\nl = {1,\n oops}\n',
     'include("n1.conf")\n',
+    'include("c1.conf")\n',
 ]
 
-RULE = ('all histories up to length N over %d prior events (accepted parse; parse ending inside "...", \'...\', /*...; lexer errors; failure in an included file at depth 1 and 3; '
+RULE = ('all histories up to length N over %d prior events (accepted parse; parse ending inside "...", \'...\', /*...; lexer errors; failure in an included file at depth 1 and 3 through cfg_parse_buf, cfg_parse_fp and cfg_parse; '
         'self-include to the depth limit; integer/float range failure; missing include; EOF inside a section/list/call; file/stream variants; root free + re-init; second context), '
         'one process per history, followed by %d probe parses into contexts that hold nothing from the history (one created before it, one after); each probe result '
         '(return code, full tree, diagnostics with file and line) must equal its result in a fresh process. Two-context clause: interleaved parses into two contexts vs. solo runs. '
